@@ -649,14 +649,19 @@ fn run_withlen<R: swimos_form::read::Recognizer>(
     bytes: &[u8],
     cuts: &[usize],
     hdr_cut: usize,
+    sentinel: bool,
     calls: &mut Vec<Call>,
 ) -> (Result<R::Target, String>, usize) {
-    const SENTINEL: &[u8] = b"\x00\x00\x00\x00\x00\x00\x00\x01Z";
+    // the first bytes of the next frame arrive with the last piece (sentinel) - or the stream pauses
+    // exactly at the end of the frame (no sentinel); `left` is reported relative to the expected rest
+    const SENTINEL_BYTES: &[u8] = b"\x00\x00\x00\x00\x00\x00\x00\x01Z";
+    let SENTINEL: &[u8] = if sentinel { SENTINEL_BYTES } else { b"" };
+    let pad = if sentinel { 0 } else { 9 };
     let mut frame = Vec::with_capacity(bytes.len() + 8);
     frame.extend_from_slice(&(bytes.len() as u64).to_be_bytes());
     frame.extend_from_slice(bytes);
     let mut all_cuts: Vec<usize> = vec![];
-    if hdr_cut > 0 && hdr_cut < 8 {
+    if hdr_cut > 0 && hdr_cut <= 8 {
         all_cuts.push(hdr_cut);
     }
     for c in cuts {
@@ -678,7 +683,7 @@ fn run_withlen<R: swimos_form::read::Recognizer>(
         match r {
             Ok(Some(v)) => {
                 calls.push(Call { avail: before, consumed, out: "some" });
-                let left = buf.len() + if last { 0 } else { usize::MAX / 2 };
+                let left = buf.len() + pad + if last { 0 } else { usize::MAX / 2 };
                 return (Ok(v), left);
             }
             Ok(None) => {
@@ -686,12 +691,12 @@ fn run_withlen<R: swimos_form::read::Recognizer>(
             }
             Err(e) => {
                 calls.push(Call { avail: before, consumed, out: "err" });
-                let left = buf.len() + if last { 0 } else { usize::MAX / 2 };
+                let left = buf.len() + pad + if last { 0 } else { usize::MAX / 2 };
                 return (Err(format!("{:?}", e)), left);
             }
         }
     }
-    (Err("NoValueAtEof".to_string()), buf.len())
+    (Err("NoValueAtEof".to_string()), buf.len() + pad)
 }
 
 struct ChunkedReader<'a> {
@@ -796,23 +801,36 @@ where
     let mut calls = vec![];
     let rd0 = idf(&run_rd(T::make_recognizer(), bytes, &[], &mut calls));
     let mut calls0 = vec![];
-    let (wl0r, left0) = run_withlen(T::make_recognizer(), bytes, &[], 0, &mut calls0);
+    let (wl0r, left0) = run_withlen(T::make_recognizer(), bytes, &[], 0, true, &mut calls0);
     let wl0 = idf(&wl0r);
     out.insert("n".into(), json!(n));
     // the frame starts (after blanks) with an unquoted primitive token: the decoder is in state Init when it meets it
     let first = bytes.iter().copied().find(|b| !matches!(b, b' ' | b'\t' | b'\n' | b'\r'));
     out.insert("bare".into(), json!(matches!(first, Some(b) if b != b'"' && b != b'@' && b != b'{')));
     out.insert("plans".into(), json!(plans.list.len()));
-    out.insert("rd0".into(), json!(rd0));
-    out.insert("wl0".into(), json!(wl0));
+    out.insert("rd0".into(), json!(rd0.clone()));
+    out.insert("wl0".into(), json!(wl0.clone()));
     out.insert("wl0_left".into(), json!(left0));
     let mut rd_ids: BTreeMap<String, usize> = BTreeMap::new();
     let mut wl_ids: BTreeMap<String, usize> = BTreeMap::new();
     let mut wl_left_bad = 0usize;
     let mut rd_bad: Option<J> = None;
     let mut wl_bad: Option<J> = None;
-    let mut runs = 2usize;
+    let mut runs = 3usize;
     let mut sample: Option<J> = None;
+    {
+        // unchunked, nothing after the frame
+        let mut calls = vec![];
+        let (wr, left) = run_withlen(T::make_recognizer(), bytes, &[], 0, false, &mut calls);
+        let w = idf(&wr);
+        if left != 9 {
+            wl_left_bad += 1;
+        }
+        if (w != expect || left != 9) && wl_bad.is_none() {
+            wl_bad = Some(json!({"cuts": [], "hdr_cut": 0, "sentinel": false, "got": w, "left": left, "calls": calls_json(&calls)}));
+        }
+        *wl_ids.entry(w).or_insert(0) += 1;
+    }
     for (pi, cuts) in plans.list.iter().enumerate() {
         let mut calls = vec![];
         let r = idf(&run_rd(T::make_recognizer(), bytes, cuts, &mut calls));
@@ -824,7 +842,35 @@ where
         let hdr_cuts: Vec<usize> = if hdr && pi % 7 == 0 { vec![0, 1 + (pi / 7) % 7] } else { vec![0] };
         for hc in hdr_cuts {
             let mut calls = vec![];
-            let (wr, left) = run_withlen(T::make_recognizer(), bytes, cuts, hc, &mut calls);
+            // every third plan: the stream pauses exactly at the end of the frame
+            let sentinel = (pi + hc) % 3 != 2;
+            let (wr, left) = run_withlen(T::make_recognizer(), bytes, cuts, hc, sentinel, &mut calls);
+            let w = idf(&wr);
+            runs += 1;
+            let left_ok = left == 9;
+            if !left_ok {
+                wl_left_bad += 1;
+            }
+            if (w != expect || !left_ok) && wl_bad.is_none() {
+                wl_bad = Some(json!({"cuts": cuts, "hdr_cut": hc, "sentinel": sentinel, "got": w, "left": left, "calls": calls_json(&calls)}));
+            }
+            if sample.is_none() && cuts.len() >= 1 && calls.len() >= 2 {
+                sample = Some(json!({"cuts": cuts, "hdr_cut": hc, "calls": calls_json(&calls)}));
+            }
+            *wl_ids.entry(w).or_insert(0) += 1;
+        }
+    }
+    // plans that also cut inside (or right after) the 8 byte length prefix: [hdr_cut, body cuts...]
+    if let Some(hm) = spec["hdr_multi"].as_array() {
+        for m in hm {
+            let v: Vec<usize> = m.as_array().unwrap().iter().map(|x| x.as_u64().unwrap() as usize).collect();
+            if v.is_empty() {
+                continue;
+            }
+            let hc = v[0];
+            let cuts: Vec<usize> = v[1..].iter().copied().filter(|&c| c > 0 && c < n).collect();
+            let mut calls = vec![];
+            let (wr, left) = run_withlen(T::make_recognizer(), bytes, &cuts, hc, true, &mut calls);
             let w = idf(&wr);
             runs += 1;
             let left_ok = left == 9;
@@ -834,9 +880,6 @@ where
             if (w != expect || !left_ok) && wl_bad.is_none() {
                 wl_bad = Some(json!({"cuts": cuts, "hdr_cut": hc, "got": w, "left": left, "calls": calls_json(&calls)}));
             }
-            if sample.is_none() && cuts.len() >= 1 && calls.len() >= 2 {
-                sample = Some(json!({"cuts": cuts, "hdr_cut": hc, "calls": calls_json(&calls)}));
-            }
             *wl_ids.entry(w).or_insert(0) += 1;
         }
     }
@@ -844,6 +887,9 @@ where
     out.insert("wl".into(), json!(wl_ids.keys().collect::<Vec<_>>()));
     out.insert("wl_left_bad".into(), json!(wl_left_bad));
     out.insert("runs".into(), json!(runs));
+    if rd_bad.is_some() || wl_bad.is_some() || rd0 != expect || wl0 != expect {
+        out.insert("text".into(), json!(String::from_utf8_lossy(bytes)));
+    }
     if let Some(b) = rd_bad {
         out.insert("rd_bad".into(), b);
     }
